@@ -5,6 +5,12 @@ CONSTANTS
   MaxReq = 2
   Overlap = FALSE
   ReturnOnEOF = TRUE
+  MaxPause = 0
+  IdleLimit = 0
+  MaxFaults = 0
+  AcceptSurvives = TRUE
   Drops = TRUE
   Exits = TRUE
+  Pauses = FALSE
+  Faults = FALSE
 CHECK_DEADLOCK FALSE
